@@ -20,7 +20,7 @@ INFO = {
 }
 
 PHASES = ('request', 'endpoint', 'render')
-HANDLERS = ['default', 'debug', 'reraise', 'broken', 'other', 'broken-late']
+HANDLERS = ['default', 'debug', 'reraise', 'broken', 'other', 'broken-late', 'broken-http']
 FIXED = [
     {'mws': [['request', 'endpoint', 'render'], ['request', 'endpoint', 'render']], 'levels': ['app', 'route'], 'render': True},
     {'mws': [['request']], 'levels': ['app'], 'render': False},
@@ -135,6 +135,12 @@ def make_handler(name):
                 resp.headers['X-Zq9-Custom'] = 'scribbled'
                 raise RuntimeError('render_error failed after rendering')
         return BrokenLateRE()
+    if name == 'broken-http':
+        class BrokenHTTPRE(ErrorHandler):
+            # fails by raising an HTTP error of its own: still a failed renderer, not a new answer
+            def render_error(self, request, _error):
+                raise errors.ServiceUnavailable('the error renderer is down zq9')
+        return BrokenHTTPRE()
 
     class OtherRE(ErrorHandler):
         def render_error(self, request, _error):
@@ -281,7 +287,7 @@ def run_one(ctx, app, shape, cell, pos, beh, handler, probe0, rc, accept='*/*', 
         if r.exc is None or not isinstance(r.exc, TypeError):
             ctx.mismatch('reraise-nonresponse', '%s: expected TypeError to escape, got %r / %s' % (what, r.exc, r.status), rc)
             return
-    if handler in ('broken', 'broken-late') and want[0] == 'status' and want[1] >= 400 and r.exc is None:
+    if handler in ('broken', 'broken-late', 'broken-http') and want[0] == 'status' and want[1] >= 400 and r.exc is None:
         # "an error renderer that itself fails falls back to the default rendering of the same error"
         twin, tcell = default_twin(shape)
         tcell['pos'], tcell['act'] = pos, act
@@ -409,7 +415,7 @@ FIXED += [
 def shared_strategy():
     from hypothesis import strategies as st
     return st.tuples(st.sampled_from(['Forbidden', 'NotFound', 'Gone', 'ServiceUnavailable', 'ImATeapot']), st.booleans(),
-                     st.sampled_from(['raise', 'return']), st.sampled_from(HANDLERS[:2] + ['broken', 'broken-late']),
+                     st.sampled_from(['raise', 'return']), st.sampled_from(HANDLERS[:2] + ['broken', 'broken-late', 'broken-http']),
                      st.lists(st.sampled_from(['/hello', '/nothing', '/boom', '/hello/x', '/post-only', '/direct']), min_size=2, max_size=8),
                      st.sampled_from([None, 'text/html', 'application/json']))
 
